@@ -7,7 +7,10 @@ correspondence : the recurrences of cg, cr, cgne, cgnr, steepest_descent, minima
                  well-conditioned systems); GMRES(MGS) single cycle and restarted, GMRES(Householder) and
                  FGMRES (fixed and step-dependent preconditioner) as binary64 models (Model/C07Gmres.lean,
                  Model/ExtC07Restart.lean, Model/ExtC07Hh.lean; ops c07_gmres_mgs, ext_gmres_restart,
-                 ext_gmres_hh, ext_fgmres) vs the callback iterates, same tolerance.
+                 ext_gmres_hh, ext_fgmres) vs the callback iterates, same tolerance; (extension E43) on complex
+                 systems the same four comparisons vs the pair models of Model/ExtCGGmres.lean executed on pairs of
+                 binary64 numbers (op ext_cg_cycle mgs | mgsr | hh | fg: conjugated inner products, zlartg rotations
+                 [[c, s], [-conj s, c]], complex _mysign), same tolerance.
 search         : every public solver vs the SPECIFICATION-level minimiser, computed without any recurrence:
                  exact G-orthogonal projection on the power basis of the (preconditioned) Krylov space over
                  Rat / Gaussian rationals (op `c07_krylov_argmin`, complex: `ext_c07c_argmin`, Model/C07Argmin.lean;
@@ -44,20 +47,26 @@ META = {
         'substitution, x0 + Z y / Horner scheme) run in binary64 and compared with the callback iterates (ops ext_fgmres, '
         'ext_gmres_hh; real case); fgmres_optimal (any preconditioner sequence) and gmres_householder_optimal_krylov are '
         'proved for exact square roots, fewer than n inner iterations, non-singular triangular factor; LAPACK lartg / '
-        'sp.linalg.solve are modelled by their defining formulas; the iterate after exactly n inner iterations, complex '
-        'systems and the state after an exact breakdown (zero block left in Q) are search only',
+        'sp.linalg.solve are modelled by their defining formulas; the iterate after exactly n inner iterations '
+        'and the state after an exact breakdown (zero block left in Q) are search only (complex systems: see the E43 entry)',
         'GMRES(MGS): the executable model is run in binary64 and compared with the code, single cycle (c07_gmres_mgs) and '
         'restarted (ext_gmres_restart); gmres_mgs_optimal_krylov / gmres_restart_optimal (+ residual monotonicity across '
         'restarts) are proved for exact square roots (real case), fewer than n inner iterations per cycle, no breakdown; '
         'k = n and the reorth option are search only',
-        'complex systems, GMRES variants only: the executable GMRES/FGMRES models are real (binary64; the Gaussian '
-        'rationals have no square root), so complex gmres/fgmres iterates are judged by the search alone; proved for them: '
-        'the Hermitian least-squares characterisation (complex_gmres_optimal_of_qr / _of_least_squares: orthonormal '
-        'Arnoldi basis + unitary triangularisation + solved triangular system => residual-optimal over x0 + span{z_j}) '
+        'complex systems, GMRES variants (extension E43): no longer search only for fewer than n inner iterations per cycle -- '
+        'executable pair models (Model/ExtCGGmres.lean: complex numbers as pairs (re, im), conjugated MGS / complex '
+        'Householder reflections with _mysign, zlartg rotations with real c, back substitution, x0 + Z y / Horner scheme) run '
+        'on binary64 pairs and compared with the callback iterates (op ext_cg_cycle), and for the same definitions over '
+        'pairs of an ordered field with an exact square root: complex_gmres_mgs_pairs_optimal_krylov, '
+        'complex_gmres_householder_pairs_optimal_krylov (iterate in x0 + K_k(MA, M r0), minimal preconditioned residual), '
+        'complex_fgmres_pairs_optimal (any preconditioner maps), hypothesis: the recorded estimate g[k] is non-zero (no '
+        'breakdown so far); restarted: complex_gmres_restart_vec_optimal (every logged iterate is optimal within its '
+        'cycle). Still search only for complex GMRES: k = n, reorth, mixed dtypes / single precision, LAPACK zlartg / sp.linalg.solve modelled by their defining formulas. '
+        'Also proved (E37): the Hermitian least-squares characterisation (complex_gmres_optimal_of_qr / _of_least_squares) '
         'and the soundness of the oracle certificate (complex_argmin_certificate_sound, op ext_c07c_argmin: Hermitian '
         'test of the Gram matrix + conjugating Vector checker). [cg, cr, cgnr, cgne, steepest_descent, minimal_residual '
-        'on complex systems are no longer search only: complex_cg_optimal ... complex_mr_exact_line_search are about '
-        'the Gaussian-rational terms op c07_iter evaluates]',
+        'on complex systems: complex_cg_optimal ... complex_mr_exact_line_search are about the Gaussian-rational terms op '
+        'c07_iter evaluates]',
         'flexible GMRES with a varying preconditioner: dense NumPy least-squares oracle over the recorded directions '
         '(search) next to the model correspondence (ext_fgmres with the preconditioners used cyclically)',
         'bicgstab: the property promises no minimiser; "solved within n steps" is only counted (feature bicgstab-solved), '
@@ -82,6 +91,10 @@ META = {
         'a non-commuting M is the known finding cr-noncommuting-preconditioner',
         'positive semidefiniteness of the Gram matrix handed to the complex certificate checker: G = A (kind cg, HPD by '
         'the generator) or G = B^H B (gram_matrix_psd); its Hermitian symmetry is tested exactly by the driver (isHermL)',
+        'complex GMRES pair models (extension E43): exact square root of the non-negative reals (theorems) vs Float.sqrt on '
+        'binary64 pairs (correspondence, relative 1e-8); complex division a*conj(b)/|b|^2 and the zlartg formula c = |f|/d, '
+        's = (f/|f|) conj(g)/d, d = sqrt(|f|^2+|g|^2) (f = 0: c = 0, s = conj(g)/|g|) stand for the scaled LAPACK / NumPy '
+        'variants (equal in exact arithmetic)',
     ],
 }
 
@@ -490,6 +503,19 @@ def ext_fgmres_line(A, Ms, b, x0, k):
     return f'ext_fgmres {";".join(_fbits(r) for r in A)} {mats} {_fbits(b)} {_fbits(x0)} {k}'
 
 
+def _cbits(v):
+    """complex vector as interleaved re, im bit patterns (ops ext_cg_*)"""
+    v = np.asarray(v, dtype=complex).ravel()
+    return ','.join(f'{float_bits(z.real)},{float_bits(z.imag)}' for z in v)
+
+
+def cg_cycle_line(kind, s, x0, k, cycles=0):
+    """extension E43: the complex GMRES family, pair models of Model/ExtCGGmres.lean run in binary64
+    (kind mgs | hh | fg: one cycle of k inner iterations; mgsr: `cycles` restarted cycles of k inner iterations)"""
+    return (f'ext_cg_cycle {kind} {";".join(_cbits(r) for r in s.A)} {";".join(_cbits(r) for r in s.Md)} {_cbits(s.b)} '
+            f'{_cbits(x0)} {k} {cycles}')
+
+
 def parse_bits(reply):
     import struct
     if reply in ('-', 'bad-size') or reply.startswith('bad'):
@@ -644,6 +670,17 @@ def run_kry_cases(ctx, cases):
             elif not case['restart'] and solver == 'fgmres':
                 it['ext'] = ('single', 'ext_fgmres', len(lines))
                 lines.append(ext_fgmres_line(s.A, [s.Md], s.b, s.x0d, case['K']))
+        if cplx and not case.get('store') and s.n >= 2 and np.iscomplexobj(s.A) and np.iscomplexobj(s.b):
+            # extension E43: complex systems vs the pair models (zlartg rotations, conjugated inner products, complex _mysign)
+            hh = solver == 'gmres_householder' or (solver == 'gmres' and case['orthog'] == 'householder')
+            mgs = solver == 'gmres_mgs' or (solver == 'gmres' and case['orthog'] == 'mgs')
+            if case['restart'] and mgs:
+                it['ext'] = ('restart', 'ext_cg_cycle mgsr', len(lines))
+                lines.append(cg_cycle_line('mgsr', s, s.x0d, case['restart'], case['K']))
+            elif not case['restart'] and (mgs or hh or solver == 'fgmres'):
+                kd = 'mgs' if mgs else 'hh' if hh else 'fg'
+                it['ext'] = ('single', 'ext_cg_cycle ' + kd, len(lines))
+                lines.append(cg_cycle_line(kd, s, s.x0d, case['K']))
         items.append(it)
     rep1 = ctx.lean(lines, chunks=2 if len(lines) > 2000 else 1) if lines else []
     # phase 2: the real code; `k` never exceeds the grade ("the k-dimensional Krylov space" has to exist)
@@ -786,6 +823,8 @@ def run_kry_cases(ctx, cases):
         if 'ext' in it and it.get('mode') == it['ext'][0] and (it['mode'] == 'restart' or it['grade'] > 0):
             mode, op, li = it['ext']
             mod = parse_bits(rep1[li])
+            if mod is not None and op.startswith('ext_cg_cycle'):
+                mod = [m[0::2] + 1j * m[1::2] for m in mod]
             if mod is None:
                 ctx.corr(op, pub, rep1[li][:200], 'n/a', 'driver rejected the request')
             else:
